@@ -1,4 +1,5 @@
 import Hms
+import Driver.Decode
 /-! Command table of the driver. Each command is a pure function `String → String`. -/
 namespace Driver
 open Hms
@@ -97,6 +98,30 @@ def cmdSelfCheck (payload : String) : String :=
     | .inl (.error _) => "SPEC-NA"
     | .inr () => "FUEL"
 
+def hexS (s : String) : String := Sexp.hexOfString s
+
+def spanS (sp : Core.Span) : String := s!"{sp.sl}.{sp.sc}-{sp.el}.{sp.ec}"
+
+def firstLine (s : String) : String := (s.splitOn "\n").headD ""
+
+def outcomeS : Core.Outcome → String
+  | .ok out trig => s!"OK out={hexS out} trig={hexS trig}"
+  | .fatal k msg sp out trig => s!"FATAL kind={k} msg={hexS (firstLine msg)} span={spanS sp} out={hexS out} trig={hexS trig}"
+  | .unsupported w => s!"UNSUPPORTED {hexS w}"
+  | .timeout => "TIMEOUT"
+
+/-- `spec <fuel> <callLimit> <modules sexp>` → outcome of the specification semantics. -/
+def cmdSpec (payload : String) : String :=
+  match payload.splitOn " " with
+  | fuelS :: limS :: rest =>
+    match fuelS.toNat?, limS.toNat?, Sexp.parse (" ".intercalate rest) with
+    | some fuel, some lim, some sx =>
+      match Decode.program sx with
+      | .ok prog => outcomeS (Core.runProgram { prog := prog, callLimit := lim } fuel)
+      | .error e => s!"DECODE-ERROR {hexS e}"
+    | _, _, _ => "BAD-INPUT"
+  | _ => "BAD-INPUT"
+
 def dispatch (line : String) : String :=
   let (c, p) := splitCmd line
   match c with
@@ -104,6 +129,7 @@ def dispatch (line : String) : String :=
   | "lex" => cmdLex p
   | "tokcheck" => cmdTokCheck p
   | "selfcheck" => cmdSelfCheck p
+  | "spec" => cmdSpec p
   | "ping" => "pong"
   | _ => "BAD-COMMAND"
 
